@@ -204,4 +204,11 @@ def rule_d(ctx: Ctx) -> None:
     ctx.explain('C19.d: arity/argument check of every validation-error construction in validators/ (validator, obj, reason).')
 
 
-RULES = [rule_a, rule_b, rule_c, rule_d]
+def rule_e(ctx: Ctx) -> None:
+    """No error outside the damaged node: facets pushed on the context for one node must not survive to be applied to another one
+    (the pattern hand-off slot is emptied by its consumer on every path, also when every member type fails - C02.g body)."""
+    from .c02 import rule_g as patterns_slot
+    patterns_slot(ctx, 'C19.e')
+
+
+RULES = [rule_a, rule_b, rule_c, rule_d, rule_e]
